@@ -125,6 +125,14 @@ func checkC19(p *Prog, r *Report) {
 								}
 							}
 							rangesAll = rangesAll || (hasLen && hasIdx)
+							// the store loader may look the planned descriptor up by name instead of walking the list itself
+							if mname == "setupUpgradeStoreLoaders" {
+								for _, rf := range *refs {
+									if c, ok := rf.(*ssa.Call); ok && c.Call.StaticCallee() != nil && len(c.Call.Args) == 2 && c.Call.Args[0] == ssa.Value(u) && finderByUpgradeName(p, c.Call.StaticCallee()) {
+										rangesAll = true
+									}
+								}
+							}
 						}
 					}
 				}
@@ -276,20 +284,35 @@ func checkC19(p *Prog, r *Report) {
 					for _, b := range fn.Blocks {
 						for _, in := range b.Instrs {
 							bo, ok := in.(*ssa.BinOp)
-							if !ok || bo.Op != token.EQL {
+							if !ok || (bo.Op != token.EQL && bo.Op != token.NEQ) {
 								continue
 							}
 							for _, opd := range []ssa.Value{bo.X, bo.Y} {
 								if u, ok := opd.(*ssa.UnOp); ok && u.Op == token.MUL {
 									if nf, ok := u.X.(*ssa.FieldAddr); ok && nf.X == base && fieldName(nf.X.Type(), nf.Field) == "UpgradeName" {
-										if iff, ok := b.Instrs[len(b.Instrs)-1].(*ssa.If); ok && iff.Cond == bo && b.Succs[0].Dominates(cs.Instr.Block()) {
-											okArg = true
+										if iff, ok := b.Instrs[len(b.Instrs)-1].(*ssa.If); ok && iff.Cond == bo {
+											// `if name == u.UpgradeName { … }` or `if name != u.UpgradeName { continue }`
+											eqSide := b.Succs[0]
+											if bo.Op == token.NEQ {
+												eqSide = b.Succs[1]
+											}
+											if eqSide == cs.Instr.Block() || eqSide.Dominates(cs.Instr.Block()) {
+												okArg = true
+											}
 										}
 									}
 								}
 							}
 						}
 					}
+				}
+			}
+			if !okArg && len(args) == 2 {
+				// the descriptor found by a lookup helper: u, found := Find(Upgrades, planName) … &u.StoreUpgrades (or a local copy of it)
+				if why2, ok2 := storeUpgradesOfFoundDescriptor(p, fn, cs.Instr, args[1]); ok2 {
+					okArg = true
+				} else if why2 != "" {
+					why = why2
 				}
 			}
 			r.Check(okArg, kp("ORIGIN", "setupUpgradeStoreLoaders#loader-gets-the-matched-descriptor's-StoreUpgrades"), "the store loader is given the matched descriptor's own StoreUpgrades (not an accumulated or rebuilt set)", p.Pos(cs.Instr.Pos()),
@@ -655,4 +678,146 @@ func checkStoreDescriptors(p *Prog, r *Report, kp func(string, string) string, w
 		}
 	}
 	return true
+}
+
+// storeUpgradesOfFoundDescriptor: arg is the address of (a local copy of) the StoreUpgrades field of the descriptor a by-name
+// lookup over the Upgrades list returned, and the call is made only when the lookup found one.
+func storeUpgradesOfFoundDescriptor(p *Prog, fn *ssa.Function, at ssa.CallInstruction, arg ssa.Value) (string, bool) {
+	var desc ssa.Value
+	switch x := arg.(type) {
+	case *ssa.Alloc: // storeUpgrades := u.StoreUpgrades; &storeUpgrades
+		var stored ssa.Value
+		n := 0
+		if refs := x.Referrers(); refs != nil {
+			for _, rf := range *refs {
+				if st, ok := rf.(*ssa.Store); ok && st.Addr == ssa.Value(x) {
+					stored = st.Val
+					n++
+				}
+			}
+		}
+		if n != 1 {
+			return "", false
+		}
+		switch y := stored.(type) {
+		case *ssa.Field:
+			if fieldName(y.X.Type(), y.Field) == "StoreUpgrades" {
+				desc = y.X
+			}
+		case *ssa.UnOp:
+			if fa2, ok := y.X.(*ssa.FieldAddr); ok && fieldName(fa2.X.Type(), fa2.Field) == "StoreUpgrades" {
+				if ld, ok := fa2.X.(*ssa.Alloc); ok {
+					desc = soleStoredValue(ld)
+				}
+			}
+		}
+	case *ssa.FieldAddr:
+		if fieldName(x.X.Type(), x.Field) == "StoreUpgrades" {
+			if al, ok := x.X.(*ssa.Alloc); ok {
+				desc = soleStoredValue(al)
+			}
+		}
+	}
+	if desc == nil {
+		return "", false
+	}
+	ex, ok := desc.(*ssa.Extract)
+	if !ok || ex.Index != 0 {
+		return "", false
+	}
+	call, ok := ex.Tuple.(*ssa.Call)
+	if !ok {
+		return "", false
+	}
+	g := call.Call.StaticCallee()
+	if g == nil || !InModule(g) || g.Blocks == nil || len(call.Call.Args) != 2 {
+		return "", false
+	}
+	// the list is the Upgrades variable
+	if u, ok := call.Call.Args[0].(*ssa.UnOp); !ok || u.Op != token.MUL {
+		return "the lookup is not over the Upgrades variable", false
+	} else if gv, ok := u.X.(*ssa.Global); !ok || gv.Name() != "Upgrades" {
+		return "the lookup is not over the Upgrades variable", false
+	}
+	if !finderByUpgradeName(p, g) {
+		return FuncName(g) + " is not recognised as a lookup of the descriptor whose UpgradeName equals its second argument", false
+	}
+	// … and it found one where the loader is installed
+	o := NewOrigin(p, fn)
+	fa := NewFacts(p, fn, o)
+	found := false
+	if refs := call.Referrers(); refs != nil {
+		for _, rf := range *refs {
+			if e1, ok := rf.(*ssa.Extract); ok && e1.Index == 1 {
+				if in, isI := at.(ssa.Instruction); isI && Entails(fa.At(in.Block()), fa.ValueFormula(e1)) {
+					found = true
+				}
+			}
+		}
+	}
+	if !found {
+		return "the loader is installed without the lookup having found a descriptor", false
+	}
+	return "", true
+}
+
+func soleStoredValue(al *ssa.Alloc) ssa.Value {
+	var v ssa.Value
+	n := 0
+	if refs := al.Referrers(); refs != nil {
+		for _, rf := range *refs {
+			if st, ok := rf.(*ssa.Store); ok && st.Addr == ssa.Value(al) {
+				v = st.Val
+				n++
+			}
+		}
+	}
+	if n != 1 {
+		return nil
+	}
+	return v
+}
+
+// finderByUpgradeName: g(list, name) returns (element, true) only for an element of list whose UpgradeName equals name.
+func finderByUpgradeName(p *Prog, g *ssa.Function) bool {
+	if len(g.Params) != 2 || g.Signature.Results().Len() != 2 {
+		return false
+	}
+	o := NewOrigin(p, g)
+	fa := NewFacts(p, g, o)
+	nTrue := 0
+	for _, ret := range returnsOf(g) {
+		okv := unspill(ret.Results[1])
+		c, isC := okv.(*ssa.Const)
+		if !isC || c.Value == nil {
+			return false
+		}
+		if c.Value.String() != "true" {
+			continue
+		}
+		nTrue++
+		F := fa.At(ret.Block())
+		matched := false
+		for _, a := range F.Atoms() {
+			t := a.Term
+			if t == nil || t.Op != "eq" || len(t.Args) != 2 {
+				continue
+			}
+			x, y := t.Args[0], t.Args[1]
+			if y.Op == "field" {
+				x, y = y, x
+			}
+			if x.Op == "field" && x.Name == "UpgradeName" && y.Op == "param" && strings.HasPrefix(y.Name, "1:") && Entails(F, a) {
+				// the element returned is the one whose name was compared
+				rt := o.Of(ret.Results[0])
+				if len(x.Args) == 1 && (rt.Eq(x.Args[0]) || rt.Contains(func(z *Term) bool { return z.Eq(x.Args[0]) }) || x.Args[0].Contains(func(z *Term) bool { return z.Eq(rt) })) {
+					matched = true
+				}
+			}
+		}
+		if !matched {
+			return false
+		}
+	}
+	return nTrue > 0
 }
